@@ -33,6 +33,9 @@ def constructs(tag):
         [".. admonition:: Tip", "   :class: hint", "", f"   body of the tip {tag}"],      # nested directives with options
         [".. figure:: logo.png", "   :alt: a logo", "   :width: 10", "", f"   caption {tag}"],
         [f"Lead-in {tag}.", "", ".. image:: preview.png", "   :width: 200"],       # the text ends with a directive's option line
+        # some lines of a paragraph are typed without the optional space after '#'
+        [f"<nospace>First line {tag}", "<nospace>second line of the same paragraph", "third line, typed with the space", "",
+         ".. note::", "", "   body of the note"],
         [f"Lead-in {tag}.", "", ".. code:: cmake", "   :number-lines:", "", "   set(X 1)", "", "..", "   :not-a-field: an indented comment"],
     ]
 
@@ -82,6 +85,11 @@ CARRIERS = {
                                 {"k": "cpp_attr", "doc": 1, "default": "late"},
                                 {"k": "cpp_member", "doc": 1, "types": ["int"], "params": ["a"]}, {"k": "close"},
                                 {"k": "cpp_class", "doc": 1}, {"k": "cpp_attr", "doc": 1}],
+    # an inner class that bears the name of an enclosing class
+    "class_same_name": lambda: [{"k": "cpp_class", "doc": 1, "name": "Config"}, {"k": "cpp_attr", "doc": 1, "name": "outer_attr"},
+                                {"k": "cpp_class", "doc": 1, "name": "Section"},
+                                {"k": "cpp_class", "doc": 1, "name": "Config"}, {"k": "cpp_attr", "doc": 1, "name": "inner_attr", "default": "1"},
+                                {"k": "cpp_member", "doc": 1, "name": "inner_get", "types": ["desc"], "params": ["out"]}],
     "module_doc": lambda: [{"k": "module", "name": "my.module", "doc": 1}, {"k": "function", "doc": 1, "params": []}],
     "module_doc_unnamed": lambda: [{"k": "module", "name": "", "doc": 1}, {"k": "set", "doc": 0}],
     "nothing_to_document": lambda: [{"k": "set", "doc": 0}, {"k": "generic", "doc": 0}, {"k": "if", "doc": 0}],
@@ -397,10 +405,13 @@ def check(spec):
         leader, spec = False, spec[1:]
     if spec and spec[0][0] == "<inline-closer>":
         inline, spec = True, spec[1:]
+    eol = "\n"
+    if spec and spec[0][0] == "<crlf>":
+        eol, spec = "\r\n", spec[1:]
     if spec and spec[0][0] in ("<upper>", "<mixed>"):
         case, spec = spec[0][0][1:-1], spec[1:]
     events, marks = build(spec)
-    text = cmakegen.text_of(events, layout={"leader": leader, "inline_closer": inline}, case=case)
+    text = cmakegen.text_of(events, layout={"leader": leader, "inline_closer": inline, "eol": eol}, case=case)
     r = pipeline.document_text(text)
     if r["page"] is None:
         msgs = [f"error: pipeline failed: {r['error']}"]
@@ -439,6 +450,12 @@ def run(ctx):
         for s in range(min(ns, 2)):
             for seq in [q for q in seqs if len(q) <= (1 if quick else 2)]:
                 jobs.append([("<leaderless>", {}), (c, {str(s): seq})])
+    # CRLF line endings
+    for c in CARRIERS:
+        ns = len(slots(cmakegen.close(CARRIERS[c]())))
+        for s_ in range(min(ns, 2)):
+            for seq in ([0], [1], [6], [11], [12], [5, 2], [13]):
+                jobs.append([("<crlf>", {}), (c, {str(s_): seq})])
     # the terminator on the line of the last sentence
     for c in CARRIERS:
         ns = len(slots(cmakegen.close(CARRIERS[c]())))
